@@ -264,3 +264,17 @@ impl<M: Math> DiagMassMatrix<M> {
         math.array_mult(untransformed_gradient, &self.stds, transformed_gradient);
     }
 }
+
+#[cfg(nuts_rs_verif)]
+impl<M: Math> DiagMassMatrix<M> {
+    /// Verification hook: `(stds, inv_stds, mean, logdet, id)`.
+    pub fn verif_fields(&self, math: &mut M) -> (Box<[f64]>, Box<[f64]>, Box<[f64]>, f64, i64) {
+        (
+            math.box_array(&self.stds),
+            math.box_array(&self.inv_stds),
+            math.box_array(&self.mean),
+            self.logdet,
+            self.id,
+        )
+    }
+}
